@@ -697,8 +697,10 @@ def install():
             rt = self.get_lines()[1:] == content_lines
         except Exception:
             rt = False
+        # the lines VSG read are the lines of the file on disk (T.disk_lines: split by the driver on CR LF / LF / CR only)
+        disk = getattr(T, "disk_lines", None)
         T.emit({"e": "Parse", "toks": T.abs_list(self.lAllObjects), "raw": sum(1 for t in self.lAllObjects if type(t) is parser.item),
-                "rt": rt, "lineLens": [len(x) for x in content_lines]})
+                "rt": rt, "lineLens": [len(x) for x in content_lines], "disk": True if disk is None else (content_lines == disk)})
         return ret
 
     VF._processFile = _processFile
